@@ -149,10 +149,14 @@ fn foreign_documents(rep: &Report, tier: Tier) {
                         };
                         let body: Vec<String> = perm.iter().map(|&i| format!("\"{}\"{colon}{}", fields[i], fv(fields[i]))).collect();
                         let doc = format!(
-                            "{{\"operations\"{colon}[{{\"Create\"{colon}{{\"uuid\"{colon}\"{uu}\"}}}}{comma}{{\"Update\"{colon}{{{}}}}}{comma}{{\"Create\"{colon}{{\"uuid\"{colon}\"{}\"}}}}{comma}{{\"Delete\"{colon}{{\"uuid\"{colon}\"{}\"}}}}]}}",
+                            "{{\"operations\"{colon}[{{\"Create\"{colon}{{\"uuid\"{colon}\"{uu}\"}}}}{comma}{{\"Update\"{colon}{{{}}}}}{comma}{{\"Create\"{colon}{{\"uuid\"{colon}\"{}\"}}}}{comma}{{\"Delete\"{colon}{{\"uuid\"{colon}\"{}\"}}}}{comma}{{\"Update\"{colon}{{\"uuid\"{colon}\"{}\"{comma}\"property\"{colon}\"p\"{comma}\"value\"{colon}\"late\"{comma}\"timestamp\"{colon}\"{prec}\"}}}}{comma}{{\"Delete\"{colon}{{\"uuid\"{colon}\"{}\"}}}}{comma}{{\"Create\"{colon}{{\"uuid\"{colon}\"{uu}\"}}}}]}}",
                             body.join(comma),
                             tid(2),
-                            tid(2)
+                            tid(2),
+                            // operations another writer may well send and that the documented rules ignore: an update
+                            // of the task just deleted, a delete of a task that never existed, a create of one that does
+                            tid(2),
+                            tid(3)
                         );
                         n += 1;
                         distinct.insert(crate::util::h64(&doc));
@@ -233,7 +237,7 @@ fn feed_fresh(doc: &str, want: &Tasks) -> Result<(), String> {
 pub fn run(opts: &Opts) -> i32 {
     let rep = Report::new("C14", "model_checking", opts);
     rep.set("exhaustive", true);
-    rep.set("rule", "outbound: every version sent in every history (undo points, property removal, deletes of populated tasks, odd strings, 1MB values) is validated against a strict parser of the documented format (only Create/Delete/Update with exactly the documented fields, order = commit order) and, when nothing was pulled, compared with the documented conversion of the pending list; inbound: every document of a grammar of other writers (24 field orders x 4 timestamp precisions x null/string/escaped/raw values x separators x uuid case) is fed to a fresh replica and compared with the model; non-trivial states as in C01");
+    rep.set("rule", "outbound: every version sent in every history (undo points, property removal, deletes of populated tasks, odd strings, 1MB values) is validated against a strict parser of the documented format (only Create/Delete/Update with exactly the documented fields, order = commit order) and, when nothing was pulled, compared with the documented conversion of the pending list; inbound: every document of a grammar of other writers (24 field orders x 4 timestamp precisions x null/string/escaped/raw values x separators x uuid case, each also containing operations the documented rules ignore: update of a deleted task, delete of a missing one, create of an existing one) is fed to a fresh replica and compared with the model; non-trivial states as in C01");
     rep.assume("the version wrapper {\"operations\":[...]} is the format (docs/src/sync-protocol.md shows a bare array; the property's anchors name the wrapper)");
     run_spaces("C14", spaces(opts.tier), opts, &rep);
     subsecond(&rep);
